@@ -185,6 +185,10 @@ def check(prop, tier, seed):
     thunks = [(lambda s=s: run_suite(s, tier, seed)) for s in suites]
     if prop in ("C01", "C17"):
         thunks.append(lambda: inductive(tier))
+        # under shared access from several threads: handles stay distinct (C01), recycled indices are
+        # preferred to never-used ones (C17) - facts of the concurrency traces charged to these properties
+        from . import conc
+        thunks.append(lambda: conc.check(prop, tier, seed))
     if prop == "C01":
         # creation during deserialisation: the save/load traces charge reused handles to C01
         from . import saveload
